@@ -100,6 +100,7 @@ type RunResult struct {
 	Fingerprint string         `json:"fp"`
 	NonTrivial  bool           `json:"nontrivial"`
 	States      []string       `json:"states,omitempty"`
+	BlockPatterns []string     `json:"block_patterns,omitempty"`
 	TraceDigest string         `json:"trace_digest"`
 	FaultFree   bool           `json:"fault_free"`
 	Err         string         `json:"err,omitempty"` // machinery error (exit 2), never a violation
